@@ -48,4 +48,8 @@ def main() -> int:
 
 
 if __name__ == '__main__':
-    sys.exit(main())
+    rc = main()
+    sys.stdout.flush()
+    sys.stderr.flush()
+    import os
+    os._exit(rc)        # never wait for a handler thread that some simulation has left behind
